@@ -198,6 +198,9 @@ SUMMARIES = {
     "std::ops::IndexMut::index_mut": [((), 0, (ELEM,))],
     "std::iter::Iterator::enumerate": [((ELEM, F1), 0, (ELEM,))],
     "std::iter::Iterator::chain": [((ELEM,), 0, (ELEM,)), ((ELEM,), 1, (ELEM,))],
+    "std::iter::Iterator::flatten": [((ELEM,), 0, (ELEM, ELEM))],
+    "std::option::Option::into_iter": [((ELEM,), 0, (SOME, F0))],
+    "std::option::Option::as_deref": [((SOME, F0), 0, (SOME, F0))],
     "std::iter::Iterator::next": [((SOME, F0), 0, (ELEM,))],
     "std::iter::Iterator::last": [((SOME, F0), 0, (ELEM,))],
     "std::iter::Iterator::nth": [((SOME, F0), 0, (ELEM,))],
